@@ -1,5 +1,5 @@
 (* Lemmas about the module-level state (Model/GState.v over Gen/GenGState.v) -- C18. *)
-From Coq Require Import String List NArith ZArith Bool Lia.
+From Coq Require Import String List NArith ZArith Bool Lia Permutation.
 From Verif Require Import Gen.GenReports Gen.GenGState Model.GState.
 Import ListNotations.
 Open Scope Z_scope.
@@ -8,33 +8,36 @@ Open Scope Z_scope.
    (compared object by object).  try_compute.not_ready_yet ([nry]) is deliberately not part of it: it is not
    restored -- it is replaced on the next outermost __enter__ and only read while speculating, see [agree]. *)
 Definition gstate_eq (a b : gstate) : Prop :=
-  depth a = depth b /\ awaiting a = awaiting b /\ handlers a = handlers b /\ forall d, flags a d = flags b d.
+  depth a = depth b /\ awaiting a = awaiting b /\ handlers a = handlers b /\ (forall d, flags a d = flags b d) /\
+  length (fcs a) = length (fcs b).
+(* (the CONTENT of Awaiting.known_cycles / found_cycles_stack is handled by [wf] below: it is empty whenever
+   awaiting_stack is) *)
 
 Lemma gstate_eq_refl : forall a, gstate_eq a a.
 Proof. intros a. repeat split; reflexivity. Qed.
 
 Lemma gstate_eq_sym : forall a b, gstate_eq a b -> gstate_eq b a.
-Proof. intros a b [H1 [H2 [H3 H4]]]. repeat split; auto. Qed.
+Proof. intros a b [H1 [H2 [H3 [H4 H5]]]]. repeat split; auto. Qed.
 
 Lemma gstate_eq_trans : forall a b c, gstate_eq a b -> gstate_eq b c -> gstate_eq a c.
 Proof.
-  intros a b c [A1 [A2 [A3 A4]]] [B1 [B2 [B3 B4]]].
-  split; [congruence|]. split; [congruence|]. split; [congruence|].
+  intros a b c [A1 [A2 [A3 [A4 A5]]]] [B1 [B2 [B3 [B4 B5]]]].
+  split; [congruence|]. split; [congruence|]. split; [congruence|]. split; [|congruence].
   intros d. rewrite A4. apply B4.
 Qed.
 
 Ltac unfold_steps :=
   unfold enter, exit_cm, lift_enter, try_enter, try_exit, await_enter, await_exit, hr_enter, hr_exit_pop,
          sbind, add_depth, set_flag, guard_not_awaiting, push_awaiting, pop_assert_awaiting,
-         push_handler, pop_assert_handler, reset_nry_at_depth0 in *.
+         push_handler, pop_assert_handler, reset_nry_at_depth0, push_cycles_frame, pop_cycles_frame in *.
 
 (* __enter__ raising leaves the state as it was (and __exit__ is not called) *)
 Lemma enter_raise_unchanged : forall c s e s',
   enter c s = EnterRaise e s' -> gstate_eq (g s') (g s) /\ e = EDeferredCycle.
 Proof.
-  intros c [[dp aw fl hs nr] ls] e s' H. destruct c; unfold_steps; simpl in H.
+  intros c [[dp aw fl hs nr kc0 fc] ls] e s' H. destruct c; unfold_steps; simpl in H.
   - discriminate.
-  - destruct (fl d); inversion H; subst. split; [apply gstate_eq_refl|reflexivity].
+  - destruct (fl d || kc_mem d _); inversion H; subst. split; [apply gstate_eq_refl|reflexivity].
   - discriminate.
 Qed.
 
@@ -43,18 +46,26 @@ Lemma with_restores : forall c s s1, enter c s = EnterOk s1 ->
   forall s2 exc, gstate_eq (g s2) (g s1) ->
   gstate_eq (g (snd (exit_cm c exc s2))) (g s).
 Proof.
-  intros c [[dp aw fl hs nr] ls] s1 He [[dp2 aw2 fl2 hs2 nr2] ls2] exc [E1 [E2 [E3 E4]]].
+  intros c [[dp aw fl hs nr kc0 fc] ls] s1 He [[dp2 aw2 fl2 hs2 nr2 kc2 fc2] ls2] exc [E1 [E2 [E3 [E4 E5]]]].
   destruct c; unfold_steps; simpl in *.
-  - inversion He; subst; simpl in *. subst. repeat split; simpl; try reflexivity; try lia. exact E4.
-  - destruct (fl d) eqn:F; inversion He; subst; simpl in *. subst.
-    rewrite N.eqb_refl. simpl. repeat split; simpl; try reflexivity.
+  - inversion He; subst; simpl in *. subst. repeat split; simpl; try reflexivity; try lia; assumption.
+  - destruct (fl d || kc_mem d _) eqn:F0; inversion He; subst; simpl in *. subst.
+    apply orb_false_iff in F0. destruct F0 as [F _].
+    rewrite N.eqb_refl. simpl. destruct fc2 as [|l r]; simpl in E5; [discriminate|]. simpl.
+    repeat split; simpl; try reflexivity; try lia.
     intros x. rewrite E4. destruct (N.eqb_spec x d) as [->|N]; [rewrite F|]; reflexivity.
   - inversion He; subst; simpl in *. subst.
-    rewrite N.eqb_refl. destruct ox; simpl; repeat split; simpl; try reflexivity; exact E4.
+    rewrite N.eqb_refl. destruct ox; simpl; repeat split; simpl; try reflexivity; assumption.
 Qed.
 
 Lemma wait_record_core : forall d x, gstate_eq (wait_record d x) x.
 Proof. intros d x. unfold wait_record. destruct (depth x >? 0); repeat split; reflexivity. Qed.
+
+Lemma remember_core : forall d x, gstate_eq (remember_cycle d x) x.
+Proof.
+  intros d x. unfold remember_cycle. destruct (fcs x) as [|l r] eqn:F; [apply gstate_eq_refl|].
+  destruct (kc_mem d x); [apply gstate_eq_refl|]. repeat split; simpl; try reflexivity. rewrite F. reflexivity.
+Qed.
 
 Theorem state_restored : forall p s, gstate_eq (g (snd (eval p s))) (g s).
 Proof.
@@ -67,6 +78,7 @@ Proof.
     destruct (emit_sets_latch p); destruct (emit_raises p); simpl; try apply gstate_eq_refl;
       (eapply gstate_eq_trans; [apply IHp|apply gstate_eq_refl]).
   - destruct (flags (g s) d); [apply IHp1|apply IHp2].
+  - eapply gstate_eq_trans; [apply IHp|]. simpl. apply remember_core.
   - pose proof (IHp1 s) as H1. destruct (eval p1 s) as [o s']. simpl in H1.
     destruct o; try exact H1; (eapply gstate_eq_trans; [apply IHp2|exact H1]).
   - destruct (wait_blocked d (g s)); [apply gstate_eq_refl|].
@@ -100,13 +112,16 @@ Qed.
 (* ------------------------------------------------------------------------------------------ *)
 (* the outcome of a program depends on the module-level state and on the latches of the
    handle_reports instances that are on the stack -- on nothing else *)
-Definition nry_ok (a b : gstate) : Prop := depth a > 0 -> nry a = nry b.
+Definition nry_ok (a b : gstate) : Prop :=
+  (depth a > 0 -> nry a = nry b) /\ kc a = kc b /\ fcs a = fcs b.
 Definition agree (s1 s2 : mstate) : Prop :=
   gstate_eq (g s1) (g s2) /\
   (forall h, In h (handlers (g s1)) -> latches s1 h = latches s2 h) /\
   nry_ok (g s1) (g s2).
 (* [nry_ok]: not_ready_yet has to agree only while speculating (depth > 0); at depth 0 it is dead data:
-   every read is guarded by depth > 0 and every way to depth > 0 passes __enter__ at depth 0, which replaces it *)
+   every read is guarded by depth > 0 and every way to depth > 0 passes __enter__ at depth 0, which replaces it.
+   The cycle memo (known_cycles, found_cycles_stack) has to agree -- and it does between runs: both are empty
+   whenever awaiting_stack is ([wf] below). *)
 
 Lemma enter_congr : forall c s1 s2, agree s1 s2 ->
   match enter c s1, enter c s2 with
@@ -115,14 +130,14 @@ Lemma enter_congr : forall c s1 s2, agree s1 s2 ->
   | _, _ => False
   end.
 Proof.
-  intros c [[dp aw fl hs nr] ls] [[dp2 aw2 fl2 hs2 nr2] ls2] [[E1 [E2 [E3 E4]]] [L NR]]. unfold nry_ok in *. simpl in *. subst.
+  intros c [[dp aw fl hs nr kc0 fc] ls] [[dp2 aw2 fl2 hs2 nr2 kc2 fc2] ls2] [[E1 [E2 [E3 [E4 E5]]]] [L [NR [KC FC]]]]. simpl in *. subst.
   destruct c; unfold_steps; simpl.
-  - split; [repeat split; simpl; auto|]. split; [exact L|]. unfold nry_ok. simpl. intros H.
+  - split; [repeat split; simpl; auto|]. split; [exact L|]. split; [|split; reflexivity]. simpl. intros H.
     destruct (Z.eqb_spec dp2 0); [reflexivity|apply NR; lia].
-  - rewrite <- (E4 d). destruct (fl d).
-    + split; [reflexivity|]. split; [repeat split; simpl; auto|]. split; [exact L|exact NR].
-    + split; [repeat split; simpl; auto|]. { intros x. rewrite E4. reflexivity. } split; [exact L|exact NR].
-  - split; [repeat split; simpl; auto|]. split; [|exact NR]. simpl. intros x [<-|Hx]; unfold set_latch.
+  - rewrite <- (E4 d). unfold kc_mem. simpl. destruct (fl d || existsb (N.eqb d) kc2).
+    + split; [reflexivity|]. split; [repeat split; simpl; auto|]. split; [exact L|]. split; [exact NR|split; reflexivity].
+    + split; [repeat split; simpl; auto|]. { intros x. rewrite E4. reflexivity. } split; [exact L|]. split; [exact NR|split; reflexivity].
+  - split; [repeat split; simpl; auto|]. split; [|split; [exact NR|split; reflexivity]]. simpl. intros x [<-|Hx]; unfold set_latch.
     + rewrite N.eqb_refl. reflexivity.
     + destruct (N.eqb x h); [reflexivity|apply L; exact Hx].
 Qed.
@@ -130,20 +145,22 @@ Qed.
 Lemma exit_congr : forall c exc s1 s2, agree s1 s2 ->
   fst (exit_cm c exc s1) = fst (exit_cm c exc s2) /\ agree (snd (exit_cm c exc s1)) (snd (exit_cm c exc s2)).
 Proof.
-  intros c exc [[dp aw fl hs nr] ls] [[dp2 aw2 fl2 hs2 nr2] ls2] [[E1 [E2 [E3 E4]]] [L NR]]. unfold nry_ok in *. simpl in *. subst.
+  intros c exc [[dp aw fl hs nr kc0 fc] ls] [[dp2 aw2 fl2 hs2 nr2 kc2 fc2] ls2] [[E1 [E2 [E3 [E4 E5]]]] [L [NR [KC FC]]]]. simpl in *. subst.
   destruct c; unfold_steps; simpl.
-  - split; [reflexivity|]. split; [repeat split; simpl; auto|]. split; [exact L|]. unfold nry_ok. simpl. intros H. apply NR. lia.
+  - split; [reflexivity|]. split; [repeat split; simpl; auto|]. split; [exact L|]. split; [|split; reflexivity]. simpl. intros H. apply NR. lia.
   - destruct aw2 as [|top rest]; simpl.
-    + split; [reflexivity|]. split; [repeat split; simpl; auto|]. split; [exact L|exact NR].
-    + destruct (N.eqb top d); simpl; (split; [reflexivity|]); (split; [repeat split; simpl; auto|split; [exact L|exact NR]]).
-      intros x. rewrite E4. reflexivity.
+    + split; [reflexivity|]. split; [repeat split; simpl; auto|]. split; [exact L|]. split; [exact NR|split; reflexivity].
+    + destruct (N.eqb top d); simpl.
+      * destruct fc2 as [|l r]; simpl; (split; [reflexivity|]); (split; [repeat split; simpl; auto|split; [exact L|split; [exact NR|split; reflexivity]]]);
+          intros x; rewrite E4; reflexivity.
+      * split; [reflexivity|]. split; [repeat split; simpl; auto|split; [exact L|split; [exact NR|split; reflexivity]]].
   - destruct hs2 as [|top rest]; simpl.
-    + split; [reflexivity|]. split; [repeat split; simpl; auto|]. split; [exact L|exact NR].
+    + split; [reflexivity|]. split; [repeat split; simpl; auto|]. split; [exact L|]. split; [exact NR|split; reflexivity].
     + assert (L' : forall x, In x rest -> ls x = ls2 x) by (intros x Hx; apply L; right; exact Hx).
       destruct (N.eqb_spec top h) as [->|N]; simpl.
       * rewrite (L h (or_introl eq_refl)).
-        destruct ox; simpl; (split; [reflexivity|]); (split; [repeat split; simpl; auto|split; [exact L'|exact NR]]).
-      * split; [reflexivity|]. split; [repeat split; simpl; auto|split; [exact L'|exact NR]].
+        destruct ox; simpl; (split; [reflexivity|]); (split; [repeat split; simpl; auto|split; [exact L'|split; [exact NR|split; reflexivity]]]).
+      * split; [reflexivity|]. split; [repeat split; simpl; auto|split; [exact L'|split; [exact NR|split; reflexivity]]].
 Qed.
 
 Lemma agree_g : forall s1 s2, agree s1 s2 -> gstate_eq (g s1) (g s2).
@@ -152,17 +169,17 @@ Proof. intros s1 s2 [H _]. exact H. Qed.
 (* BaseDeferred.wait: the two places that touch not_ready_yet *)
 Lemma wait_blocked_congr : forall d s1 s2, agree s1 s2 -> wait_blocked d (g s1) = wait_blocked d (g s2).
 Proof.
-  intros d s1 s2 [[E1 _] [_ NR]]. unfold wait_blocked, nry_mem. rewrite <- E1.
+  intros d s1 s2 [[E1 _] [_ [NR _]]]. unfold wait_blocked, nry_mem. rewrite <- E1.
   destruct (Z.gtb_spec (depth (g s1)) 0); [|reflexivity]. rewrite (NR ltac:(lia)). reflexivity.
 Qed.
 
 Lemma wait_record_congr : forall d s1 s2, agree s1 s2 ->
   agree (mk_mstate (wait_record d (g s1)) (latches s1)) (mk_mstate (wait_record d (g s2)) (latches s2)).
 Proof.
-  intros d s1 s2 [[E1 [E2 [E3 E4]]] [L NR]]. unfold wait_record, nry_mem, nry_ok in *. rewrite <- E1.
+  intros d s1 s2 [[E1 [E2 [E3 [E4 E5]]]] [L [NR [KC FC]]]]. unfold wait_record, nry_mem, nry_ok in *. rewrite <- E1.
   destruct (Z.gtb_spec (depth (g s1)) 0) as [P|P]; simpl.
-  - rewrite <- (NR ltac:(lia)). split; [repeat split; simpl; auto|]. split; [exact L|]. intros _. reflexivity.
-  - split; [repeat split; auto|]. split; [exact L|exact NR].
+  - rewrite <- (NR ltac:(lia)). split; [repeat split; simpl; auto|]. split; [exact L|]. split; [intros _; reflexivity|split; assumption].
+  - split; [repeat split; auto|]. split; [exact L|]. split; [exact NR|split; assumption].
 Qed.
 
 Lemma await_enter_congr : forall d s1 s2, agree s1 s2 ->
@@ -188,6 +205,15 @@ Proof.
   inversion H1. split; [reflexivity|exact H2].
 Qed.
 
+Lemma remember_congr : forall d s1 s2, agree s1 s2 ->
+  agree (mk_mstate (remember_cycle d (g s1)) (latches s1)) (mk_mstate (remember_cycle d (g s2)) (latches s2)).
+Proof.
+  intros d s1 s2 A. pose proof A as [[E1 [E2 [E3 [E4 E5]]]] [L [NR [KC FC]]]]. unfold remember_cycle, kc_mem. rewrite <- FC, <- KC.
+  destruct (fcs (g s1)) as [|l r] eqn:F; [exact A|].
+  destruct (existsb (N.eqb d) (kc (g s1))); [exact A|].
+  split; [repeat split; simpl; auto|]. split; [exact L|]. split; [exact NR|split; reflexivity].
+Qed.
+
 Theorem eval_congr : forall p s1 s2, agree s1 s2 ->
   fst (eval p s1) = fst (eval p s2) /\ agree (snd (eval p s1)) (snd (eval p s2)).
 Proof.
@@ -197,7 +223,7 @@ Proof.
   - split; [reflexivity|exact A].
   - pose proof A as [[E1 _] _]. unfold not_ready_raises. rewrite E1.
     destruct (depth (g s2) >? 0); cbn [fst snd]; [split; [reflexivity|exact A]|]. apply IHp. exact A.
-  - pose proof A as [G [L NR]]. pose proof G as [E1 [E2 [E3 E4]]]. unfold top_handler. rewrite <- E3.
+  - pose proof A as [G [L NR]]. pose proof G as [E1 [E2 [E3 [E4 E5]]]]. unfold top_handler. rewrite <- E3.
     destruct (handlers (g s1)) as [|h rest] eqn:Hs; simpl.
     + split; [reflexivity|exact A].
     + assert (A' : agree (if emit_sets_latch p then mk_mstate (g s1) (set_latch h true (latches s1)) else s1)
@@ -206,8 +232,9 @@ Proof.
         split; [exact G|]. split; [|exact NR]. simpl. intros x Hx. unfold set_latch.
         destruct (N.eqb x h); [reflexivity|apply L; rewrite <- Hs; exact Hx]. }
       destruct (emit_raises p); [split; [reflexivity|exact A']|]. apply IHp. exact A'.
-  - pose proof A as [[_ [_ [_ E4]]] _]. rewrite <- (E4 d).
+  - pose proof A as [[_ [_ [_ [E4 _]]]] _]. rewrite <- (E4 d).
     destruct (flags (g s1) d); [apply IHp1|apply IHp2]; exact A.
+  - apply IHp. apply remember_congr. exact A.
   - destruct (IHp1 s1 s2 A) as [O A1].
     destruct (eval p1 s1) as [o1 t1]; destruct (eval p1 s2) as [o2 t2]. simpl in *. subst o2.
     destruct o1; [apply IHp2; exact A1|apply IHp2; exact A1|split; [reflexivity|exact A1]].
@@ -250,33 +277,149 @@ Theorem latch_is_per_block : forall p gs l1 l2,
 Proof.
   intros p gs l1 l2 H.
   destruct (eval_congr p (mk_mstate gs l1) (mk_mstate gs l2)) as [O A].
-  - split; [apply gstate_eq_refl|]. split; [exact H|]. intros _. reflexivity.
+  - split; [apply gstate_eq_refl|]. split; [exact H|]. split; [intros _; reflexivity|split; reflexivity].
   - split; [exact O|apply agree_g; exact A].
+Qed.
+
+(* ------------------------------------------------------------------------------------------ *)
+(* the cycle memo: Awaiting.found_cycles_stack runs parallel to awaiting_stack, known_cycles holds exactly what the
+   lists on it hold, each identity once.  Hence both are empty whenever nothing is being awaited. *)
+Definition wf (x : gstate) : Prop :=
+  length (fcs x) = length (awaiting x) /\
+  (forall k, In k (kc x) <-> In k (concat (fcs x))) /\
+  NoDup (concat (fcs x)).
+
+Lemma existsb_eqb_In : forall k l, existsb (N.eqb k) l = true <-> In k l.
+Proof.
+  intros k l. rewrite existsb_exists. split.
+  - intros [x [H E]]. apply N.eqb_eq in E. subst. exact H.
+  - intros H. exists k. split; [exact H|apply N.eqb_refl].
+Qed.
+
+Lemma memo_empty_when_idle : forall x, wf x -> awaiting x = [] -> kc x = [] /\ fcs x = [].
+Proof.
+  intros x [L [K _]] A. rewrite A in L. simpl in L.
+  assert (F : fcs x = []) by (destruct (fcs x); [reflexivity|discriminate]).
+  split; [|exact F]. rewrite F in K. simpl in K.
+  destruct (kc x) as [|k r]; [reflexivity|]. exfalso. apply (K k). left. reflexivity.
+Qed.
+
+Lemma remember_wf : forall d x, wf x -> wf (remember_cycle d x).
+Proof.
+  intros d x [L [K ND]]. unfold remember_cycle. destruct (fcs x) as [|l r] eqn:F; [rewrite <- F in *; repeat split; auto; apply K|].
+  destruct (kc_mem d x) eqn:M; [repeat split; try rewrite F; auto; apply K|].
+  assert (NI : ~ In d (l ++ concat r)).
+  { intros H. apply K in H. unfold kc_mem in M. apply existsb_eqb_In in H. congruence. }
+  simpl in *. repeat split; simpl.
+  - exact L.
+  - intros [<-|H]; [rewrite <- app_assoc; apply in_or_app; right; left; reflexivity|].
+    apply K in H. rewrite <- app_assoc. apply in_app_or in H. apply in_or_app. destruct H; [left|right; right]; assumption.
+  - intros H. rewrite <- app_assoc in H. apply in_app_or in H. destruct H as [H|[H|H]]; [right|left; exact H|right]; apply K; apply in_or_app; auto.
+  - rewrite <- app_assoc. simpl. apply (Permutation_NoDup (Permutation_middle l (concat r) d)). constructor; assumption.
+Qed.
+
+Lemma enter_wf : forall c s, wf (g s) ->
+  match enter c s with EnterOk s1 => wf (g s1) | EnterRaise _ s1 => wf (g s1) end.
+Proof.
+  intros c [[dp aw fl hs nr kc0 fc] ls] [L [K ND]]. destruct c; unfold_steps; simpl in *.
+  - split; [exact L|split; [exact K|exact ND]].
+  - destruct (fl d || kc_mem d _); simpl; (split; [simpl; try rewrite L; reflexivity|split; [exact K|exact ND]]).
+  - split; [exact L|split; [exact K|exact ND]].
+Qed.
+
+Lemma exit_wf : forall c s s1, enter c s = EnterOk s1 ->
+  forall s2 exc, gstate_eq (g s2) (g s1) -> wf (g s2) -> wf (g (snd (exit_cm c exc s2))).
+Proof.
+  intros c [[dp aw fl hs nr kc0 fc] ls] s1 He [[dp2 aw2 fl2 hs2 nr2 kc2 fc2] ls2] exc [E1 [E2 [E3 [E4 E5]]]] [L [K ND]].
+  destruct c; unfold_steps; simpl in *.
+  - inversion He; subst; simpl in *. split; [exact L|split; [exact K|exact ND]].
+  - destruct (fl d || kc_mem d _) eqn:F0; inversion He; subst; simpl in *. subst.
+    rewrite N.eqb_refl. simpl. destruct fc2 as [|l r]; simpl in E5; [discriminate|]. simpl in *.
+    split; [simpl; lia|]. split; [intros k; simpl; split|simpl].
+    + intros H. apply filter_In in H. destruct H as [H1 H2]. apply K in H1. apply in_app_or in H1. destruct H1 as [H1|H1]; [|exact H1].
+      apply existsb_eqb_In in H1. rewrite H1 in H2. discriminate.
+    + intros H. apply filter_In. split; [apply K; apply in_or_app; right; exact H|].
+      destruct (existsb (N.eqb k) l) eqn:X; [|reflexivity]. exfalso. apply existsb_eqb_In in X.
+      revert ND H X. clear. induction l as [|a l IH]; simpl; intros ND H X; [contradiction|].
+      inversion ND; subst. destruct X as [<-|X]; [apply H2; apply in_or_app; right; exact H|apply IH; assumption].
+    + revert ND. clear. induction l as [|a l IH]; simpl; intros ND; [exact ND|]. inversion ND; subst. apply IH. assumption.
+  - inversion He; subst; simpl in *. subst. rewrite N.eqb_refl. destruct ox; simpl; (split; [exact L|split; [exact K|exact ND]]).
+Qed.
+
+Lemma wait_record_wf : forall d x, wf x -> wf (wait_record d x).
+Proof. intros d x H. unfold wait_record. destruct (depth x >? 0); exact H. Qed.
+
+Theorem eval_wf : forall p s, wf (g s) -> wf (g (snd (eval p s))).
+Proof.
+  induction p; intros s W; simpl; try exact W.
+  - destruct (not_ready_raises (g s)); [exact W|apply IHp; exact W].
+  - destruct (top_handler (g s)); [|exact W].
+    destruct (emit_sets_latch p); destruct (emit_raises p); simpl; try exact W; apply IHp; exact W.
+  - destruct (flags (g s) d); [apply IHp1|apply IHp2]; exact W.
+  - apply IHp. simpl. apply remember_wf. exact W.
+  - pose proof (IHp1 s W) as H1. destruct (eval p1 s) as [o s']. simpl in H1.
+    destruct o; try exact H1; apply IHp2; exact H1.
+  - destruct (wait_blocked d (g s)); [exact W|].
+    pose proof (enter_wf (CAwait d) s W) as EW. unfold enter, lift_enter in EW.
+    destruct (await_enter d (g s)) as [g1|e g'] eqn:En; simpl in EW; [|exact EW].
+    assert (En' : enter (CAwait d) s = EnterOk (mk_mstate g1 (latches s))) by (unfold enter, lift_enter; rewrite En; reflexivity).
+    pose proof (IHp1 (mk_mstate g1 (latches s)) EW) as W1.
+    pose proof (state_restored p1 (mk_mstate g1 (latches s))) as H1.
+    destruct (eval p1 (mk_mstate g1 (latches s))) as [o s2]. simpl in H1, W1.
+    set (s2' := match o with ORaise ENotReady => mk_mstate (wait_record d (g s2)) (latches s2) | _ => s2 end).
+    assert (H2 : gstate_eq (g s2') g1).
+    { subst s2'. destruct o as [| |[]]; try exact H1. simpl. eapply gstate_eq_trans; [apply wait_record_core|exact H1]. }
+    assert (W2 : wf (g s2')).
+    { subst s2'. destruct o as [| |[]]; try exact W1. simpl. apply wait_record_wf. exact W1. }
+    pose proof (exit_wf (CAwait d) s _ En' s2' None H2 W2) as R. unfold exit_cm in R.
+    destruct (await_exit d (g s2')) as [g3|e' g3]; simpl in R; [|exact R].
+    destruct o; try exact R; apply IHp2; exact R.
+  - pose proof (enter_wf c s W) as EW.
+    destruct (enter c s) as [s1|e s'] eqn:En; [|exact EW].
+    pose proof (IHp1 s1 EW) as W1. pose proof (state_restored p1 s1) as H1.
+    destruct (eval p1 s1) as [o s2]. simpl in H1, W1.
+    pose proof (exit_wf c s s1 En s2 (match o with ORaise e => Some e | _ => None end) H1 W1) as R.
+    destruct (exit_cm c (match o with ORaise e => Some e | _ => None end) s2) as [act s3]. simpl in R.
+    destruct act as [e'|sw]; [exact R|].
+    destruct o; [apply IHp2; exact R|exact R|]. destruct sw; [apply IHp2; exact R|exact R].
+Qed.
+
+Corollary history_wf : forall hist s, wf (g s) -> wf (g (run_all hist s)).
+Proof. induction hist as [|p r IH]; intros s W; simpl; [exact W|]. apply IH. apply eval_wf. exact W. Qed.
+
+(* between runs (nothing is being awaited) the cycle memo is empty, whatever the runs were and however they ended *)
+Theorem cycle_memo_empty_between_runs : forall hist s, wf (g s) -> awaiting (g s) = [] ->
+  kc (g (run_all hist s)) = [] /\ fcs (g (run_all hist s)) = [].
+Proof.
+  intros hist s W A. apply memo_empty_when_idle; [apply history_wf; exact W|].
+  destruct (history_restored hist s) as [_ [R _]]. rewrite R. exact A.
 Qed.
 
 (* the probe behaves as in a fresh process after any history, whatever the history did *)
 Theorem probe_after_history : forall hist p s,
-  handlers (g s) = [] -> depth (g s) = 0 ->
+  handlers (g s) = [] -> depth (g s) = 0 -> awaiting (g s) = [] -> wf (g s) ->
   fst (eval p (run_all hist s)) = fst (eval p s) /\
   gstate_eq (g (snd (eval p (run_all hist s)))) (g s).
 Proof.
-  intros hist p s H D.
+  intros hist p s H D A W.
   pose proof (history_restored hist s) as R.
-  assert (A : agree (run_all hist s) s).
+  destruct (cycle_memo_empty_between_runs hist s W A) as [K1 F1].
+  destruct (memo_empty_when_idle (g s) W A) as [K0 F0].
+  assert (AG : agree (run_all hist s) s).
   { split; [exact R|]. destruct R as [R1 [_ [R3 _]]]. split.
     - rewrite R3, H. intros h [].
-    - unfold nry_ok. rewrite R1, D. lia. }
-  destruct (eval_congr p _ _ A) as [O _]. split; [exact O|].
+    - split; [rewrite R1, D; lia|]. split; congruence. }
+  destruct (eval_congr p _ _ AG) as [O _]. split; [exact O|].
   eapply gstate_eq_trans; [apply state_restored|exact R].
 Qed.
 
 (* in particular: whatever not_ready_yet holds when a run starts outside any speculation is irrelevant *)
-Theorem leftover_not_ready_irrelevant : forall p dp aw fl hs n1 n2 l,
+Theorem leftover_not_ready_irrelevant : forall p dp aw fl hs n1 n2 k f l,
   dp <= 0 ->
-  fst (eval p (mk_mstate (mk_gstate dp aw fl hs n1) l)) = fst (eval p (mk_mstate (mk_gstate dp aw fl hs n2) l)).
+  fst (eval p (mk_mstate (mk_gstate dp aw fl hs n1 k f) l)) = fst (eval p (mk_mstate (mk_gstate dp aw fl hs n2 k f) l)).
 Proof.
-  intros p dp aw fl hs n1 n2 l D. apply eval_congr.
-  split; [repeat split; reflexivity|]. split; [reflexivity|]. unfold nry_ok. simpl. lia.
+  intros p dp aw fl hs n1 n2 k f l D. apply eval_congr.
+  split; [repeat split; reflexivity|]. split; [reflexivity|]. split; [simpl; lia|split; reflexivity].
 Qed.
 
 (* ------------------------------------------------------------------------------------------ *)
@@ -297,10 +440,11 @@ Lemma with_exit_action : forall c s s1, enter c s = EnterOk s1 ->
   fst (exit_cm c exc s2) = XRaise e ->
   e = EUnrecoverable \/ (exists h, c = CHandle h (ObjRaises e)).
 Proof.
-  intros c [[dp aw fl hs nr] ls] s1 He [[dp2 aw2 fl2 hs2 nr2] ls2] exc e [E1 [E2 [E3 E4]]].
+  intros c [[dp aw fl hs nr kc0 fc] ls] s1 He [[dp2 aw2 fl2 hs2 nr2 kc2 fc2] ls2] exc e [E1 [E2 [E3 [E4 E5]]]].
   destruct c; unfold_steps; simpl in *.
   - discriminate.
-  - destruct (fl d); inversion He; subst; simpl in *. subst. rewrite N.eqb_refl. simpl. discriminate.
+  - destruct (fl d || kc_mem d _); inversion He; subst; simpl in *. subst. rewrite N.eqb_refl. simpl.
+    destruct fc2 as [|l r]; simpl in E5; [discriminate|]. simpl. discriminate.
   - inversion He; subst; simpl in *. subst. rewrite N.eqb_refl.
     destruct ox; simpl; intros H.
     + left. eapply decision_raises_unrecoverable. exact H.
@@ -322,6 +466,7 @@ Proof.
   - destruct (flags (g s) d); intros H.
     + apply IHp1 in H. destruct H as [H|H]; [left; apply in_or_app; left; exact H|right; exact H].
     + apply IHp2 in H. destruct H as [H|H]; [left; apply in_or_app; right; exact H|right; exact H].
+  - intros H. apply IHp in H. exact H.
   - destruct (eval p1 s) as [o s'] eqn:E1.
     destruct o; intros H.
     + apply IHp2 in H. destruct H as [H|H]; [left; apply in_or_app; right; exact H|right; exact H].
